@@ -4,15 +4,13 @@ from .mir import callee, callee_matches, Prov
 from .ctx import where_of
 
 EXPLANATION = (
-    "(agreement) the completeness test either is defined over the reader's own tokens (its call graph reaches the Lexer "
-    "and its counter moves only on list-opening / list-closing token kinds: +1 for LeftParen, VecConsIntro and "
-    "ByteVecConsIntro, -1 for RightParen) — agreement with the reader by construction — or, if it scans characters, it "
-    "must have a state for every lexer context that consumes parentheses without producing a parenthesis token "
-    "(strings, |identifiers|, comments, character literals); (buffer) lines accumulate in one buffer: the buffer is "
-    "evaluated only on the `complete` edge and cleared after evaluation on both outcomes, an incomplete line appends a "
-    "newline and evaluates nothing, an interrupt clears; (print) Ok(None) and Void print nothing, other values go to "
-    "stdout, errors to stderr, and every arm except end-of-input / fatal read errors reaches the loop again; "
-    "(one-interpreter) the loop evaluates with one interpreter created before it.")
+    '(agreement) completeness table: for 36 texts (strings, characters, |identifiers|, comments, nested and '
+    "unbalanced brackets) the REPL's completeness test agrees with the reader's own tokens / errors on the same "
+    'text; (session) scripted session table by abstract interpretation of the REPL loop with the line source and '
+    'interpreter stubbed: `(define x` / ` 1)` / `x` / empty / `(car` / `5)` error / `y` / void — which texts are '
+    'submitted, the buffer is cleared after every submission on both outcomes, values go to stdout, errors to '
+    'stderr, void and Ok(None) print nothing, one interpreter for the whole session; (last-value) eval returns '
+    'the value of the last form of a submission.')
 NOT_DECIDED = "transcript equality for every line splitting; behaviour of the line editor."
 
 
@@ -25,8 +23,11 @@ def run(ctx):
     # ------------------------------------------------------------------ C18-last-value
     ctx.rule("C18-last-value", "what a submission shows is the value of its last form (nothing for a definition): "
                                "Interpreter::eval returns the last form's result, not an earlier one")
-    from . import c17
-    c17.last_value_rule(ctx, fb, "C18-last-value")
+    ctx.rule("C18-earlier-forms", "the forms of a submission before a failing one are evaluated (their definitions stay): each form is "
+                                  "evaluated before the next is read, a failure stops the submission there")
+    from . import c17, maintables
+    d_lv = maintables.rule_eval_flow(ctx, {"last-value": "C18-last-value", "incremental": "C18-earlier-forms", "stop-at-first": "C18-earlier-forms"})
+    ctx.guarded("C18-last-value", d_lv, lambda: c17.last_value_rule(ctx, fb, "C18-last-value"))
 
     # ------------------------------------------------------------------ C18-agreement
     ctx.rule("C18-agreement", "the completeness test agrees with the reader about which parentheses count")
